@@ -71,6 +71,48 @@ NUMBER = [
     ('math_expression.parser.consume_number', 'a number is . digits or digits [. digits]; anything else restores the position'),
 ]
 
+CSSABBR = [
+    ('css_abbreviation.parser.parser', 'a stylesheet abbreviation is a list of properties separated by +'),
+    ('css_abbreviation.parser.consume_property', 'a property is name [value-delimiter] values [!]; fragments are separated by - or :'),
+    ('css_abbreviation.parser.consume_value', 'a value is a run of value tokens; a name followed by ( .. ) is a function call whose argument list may be empty'),
+    ('css_abbreviation.parser.consume_arguments', 'arguments are comma-separated values between the brackets'),
+    ('css_abbreviation.parser.is_function_start', 'a function starts where a literal is directly followed by an opening bracket'),
+]
+CONFIG = [
+    ('config.Config.get', 'a key is looked up among the resolved fields first, then in the raw user configuration'),
+    ('config.merged_data', 'the six configuration layers are merged in the documented order into a fresh dict'),
+    ('stylesheet.get_snippets_for_scope', 'a section context keeps raw snippets only, a property context keeps property snippets only, no context keeps all'),
+    ('stylesheet.parse', 'snippets are converted once per cache; the scope filter is applied on every call; every node is resolved'),
+    ('stylesheet.convert_snippets', 'every snippet of the table is converted, sorted by key, and nested'),
+    ('stylesheet.resolve_gradient', 'a gradient function call or the gradient snippet name becomes a linear-gradient value'),
+    ('stylesheet.wrap_with_field', 'values of a resolved snippet become numbered fields in written order'),
+    ('stylesheet.has_field', 'a value has a field if one of its tokens is one'),
+]
+OUTPUT = [
+    ('output_stream.tag_name', 'the element name is printed in output.tagCase'),
+    ('output_stream.attr_name', 'the attribute name is printed in output.attributeCase'),
+    ('output_stream.str_case', 'case conversion: upper, lower, or as given'),
+    ('output_stream.is_boolean_attribute', 'an attribute is boolean if marked so or listed in output.booleanAttributes (lower-cased name)'),
+    ('output_stream.self_close', 'the self-closing marker of output.selfClosingStyle'),
+    ('output_stream.is_inline', 'inline: a text node without name, or a name listed in inlineElements (lower-cased)'),
+    ('output_stream.OutputStream.push_field', 'a field is rendered by the output.field callback with the stream position'),
+    ('output_stream.OutputStream.push_string', 'a string is pushed line by line: only the first line goes after the current text, each further line follows a line break'),
+    ('output_stream.OutputStream.push_indent', 'indentation is the indent string repeated level times'),
+    ('markup.format.utils.push_tokens', 'strings are pushed as text, fields with the running tabstop offset; the offset then advances past the largest index used'),
+    ('markup.format.utils.should_output_attribute', 'implied attributes without value are not printed'),
+    ('markup.format.utils.is_inline_element', 'an inline element is a named node listed in inlineElements'),
+    ('markup.format.comment.output', 'the comment template is printed with the attribute values of the commented node'),
+]
+ATTRS = [
+    ('markup.attributes.merge_attributes', 'repeated attributes are merged into their first mention (class values joined with a space), in first-mention order'),
+    ('markup.attributes.merge_value', 'two value token lists are concatenated with the glue between them'),
+    ('markup.attributes.merge_declarations', 'a later mention overrides name, value, value type and adds the boolean / implied / multiple marks'),
+    ('markup.attributes.append', 'a string is appended to a trailing string token, otherwise becomes a new token'),
+    ('markup.format.html.get_multi_value', 'key* for a repeated shorthand, else key'),
+    ('markup.implicit_tag.resolve_implicit_tag', 'implicit name: table entry of the lower-cased parent (or context) name, span inside inline parents, div otherwise'),
+    ('markup.implicit_tag.get_parent_element', 'the closest ancestor that is an element (has a name)'),
+]
+
 
 def _run(p, res, rname, items):
     for fq, msg in items:
@@ -134,3 +176,23 @@ def tbl_number(p, res):
     for fq, msg in NUMBER:
         check_table(p, res, 'TBL-NUMBER', fq, msg)
     res.require_floor(1)
+
+
+@rule('TBL-CSSABBR', 'N', 'stylesheet abbreviation parser: reviewed case analysis')
+def tbl_cssabbr(p, res):
+    _run(p, res, 'TBL-CSSABBR', CSSABBR)
+
+
+@rule('TBL-CONFIG', 'N', 'configuration lookup, layer merge and stylesheet snippet selection: reviewed case analysis')
+def tbl_config(p, res):
+    _run(p, res, 'TBL-CONFIG', CONFIG)
+
+
+@rule('TBL-OUTPUT', 'N', 'output stream helpers and token printing: reviewed case analysis')
+def tbl_output(p, res):
+    _run(p, res, 'TBL-OUTPUT', OUTPUT)
+
+
+@rule('TBL-ATTRS', 'N', 'attribute merging, name mapping and implicit names: reviewed case analysis')
+def tbl_attrs(p, res):
+    _run(p, res, 'TBL-ATTRS', ATTRS)
